@@ -31,7 +31,7 @@ def positions():
     def sel(Q, v):
         b = Q.from_(t)
         # a bare str in select() names a column; a constant string is selected through the dialect's wrapper class
-        return str(b.select(b._wrapper_cls(v) if isinstance(v, str) else v))
+        return str(b.select(core.wrapper_cls(b)(v) if isinstance(v, str) else v))
     def where(Q, v): return str(Q.from_(t).select(t.a).where(t.a == v))
     def where_ne(Q, v): return str(Q.from_(t).select(t.a).where(t.b != v))
     def isin(Q, v): return str(Q.from_(t).select(t.a).where(t.a.isin([v, "k"])))
